@@ -16,9 +16,9 @@ tail -n 4 $out/check.log
 cd $wt
 # the demonstration lives under tests/ of the crate: make sure it is there
 suite=$(timeout 2400 cargo test --offline -j8 -p $crate --lib 2>&1 | grep -E "^test result" | head -1)
-with=$(timeout 1800 sh -c "$democmd" 2>&1 | grep -E "^test result" | head -1)
+with=$(timeout 1800 sh -c "$democmd" 2>&1 | grep -E "^test result" | grep -v " 0 passed; 0 failed" | cut -c1-60 | tr '\n' '|')
 git apply -R $out/patch.diff
-without=$(timeout 1800 sh -c "$democmd" 2>&1 | grep -E "^test result" | head -1)
+without=$(timeout 1800 sh -c "$democmd" 2>&1 | grep -E "^test result" | grep -v " 0 passed; 0 failed" | cut -c1-60 | tr '\n' '|')
 echo "suite(with patch): $suite"; echo "demo with patch: $with"; echo "demo without patch: $without"
 cd /verif
 ./tools/keep_mutant.py "$pid" "$tag" $out $out/check.log "coordinator re-ran in the agent's worktree: cargo test --offline -p $crate --lib with the patch -> [$suite]; demonstration [$democmd] with the patch -> [$with]; after git apply -R -> [$without]; the agent's full workspace run is quoted in tests_run"
